@@ -84,6 +84,7 @@ package skiplist
 
 //@ func (*Map).IteratorBetween
 //@   props C16
+//@   replay skiplist_insert
 //@   requires [shape] skShape(list) && skRI1(list) && skRI2(list) && cmpOK(list.comp)
 //@   ensures [inverted-bounds-rejected] cmpv(list.comp, val(keyLower), val(keyHigher)) > 0 ==> r1 != nil && r0 == nil
 //@   ensures [valid-bounds-accepted] cmpv(list.comp, val(keyLower), val(keyHigher)) <= 0 ==> r1 == nil && r0 != nil
@@ -121,9 +122,16 @@ package skiplist
 //@   ensures [none-greater-or-equal] r0 == nil ==> forall m *Node :: nodeIn(list, m) ==> cmpv(list.comp, m.key, key) < 0
 //@   ensures [is-member-and-ge] r0 != nil ==> nodeIn(list, r0) && cmpv(list.comp, key, r0.key) <= 0
 //@   ensures [is-least] r0 != nil ==> forall m *Node :: nodeIn(list, m) && cmpv(list.comp, key, m.key) <= 0 ==> cmpv(list.comp, r0.key, m.key) <= 0
+//@   ensures [prev-table] !isnil(prevTable) ==> forall lv Int :: 0 <= lv && lv < list.maxHeight ==>
+//@           mh(list, prevTable[lv]) && prevTable[lv] != nil && before(list, prevTable[lv], key) && lv < len(prevTable[lv].next) &&
+//@           (prevTable[lv].next[lv] == nil || cmpv(list.comp, key, prevTable[lv].next[lv].key) <= 0)
+//@   ensures [level0-successor] !isnil(prevTable) ==> r0 == prevTable[0].next[0]
 //@   modifies prevTable[*]
 //@   loop 0
 //@     invariant mh(list, x) && x != nil && before(list, x, key) && 0 <= level && level < len(x.next) && level < list.maxHeight
+//@     invariant [prev-so-far] !isnil(prevTable) ==> forall lv Int :: level < lv && lv < list.maxHeight ==>
+//@           mh(list, prevTable[lv]) && prevTable[lv] != nil && before(list, prevTable[lv], key) && lv < len(prevTable[lv].next) &&
+//@           (prevTable[lv].next[lv] == nil || cmpv(list.comp, key, prevTable[lv].next[lv].key) <= 0)
 
 //@ func (*Node).Next
 //@   props C16
